@@ -279,3 +279,9 @@ def rot(seq, seed):
         return seq
     k = seed % len(seq)
     return seq[k:] + seq[:k]
+
+
+def new_bptk_here():
+    """A bptk object in the *current* working directory (reads ./scenarios), all monitors off."""
+    from BPTK_Py import bptk
+    return bptk(loglevel="ERROR", configuration=dict(BPTK_CONF))
